@@ -437,3 +437,8 @@ func VerifC04_GatewayFinaliseWithdrawsCanary() { VerifC13_EnsureRoutesAndFinalis
 // C07: re-applying a step does not change the route again (no endless rewrite): same obligations as C13's fixed points.
 func VerifC07_GatewayMatchStepReachesFixedPoint() { VerifC13_MatchStep() }
 func VerifC07_GatewayWeightStepReachesFixedPoint() { VerifC13_WeightStep() }
+
+// C03 at the provider's entry point: "routed" is reported only when the HTTPRoute *stored* in the API server carries
+// the step's split (C13.ensure.storedRouteCarriesTheStepSplit) — a verdict reached by comparing the desired rules with
+// a copy that was modified along with them would report every later step routed without writing it.
+func VerifC03_GatewayRoutedMeansTheStoredRouteCarriesTheSplit() { VerifC13_EnsureRoutesAndFinalise() }
